@@ -702,6 +702,9 @@ class Extractor:
             fa, fb = self.truth(a), self.truth(b)
             return mk_or(mk_and(fa, fb), mk_and(mk_not(fa), mk_not(fb)))
         x, y = sorted((a, b), key=repr)
+        if _find_ite(x) is not None or _find_ite(y) is not None:
+            # a conditional value deeper inside a compared term (`d.get(k)['f'] is None`): decided by its condition
+            return lift_ite(('eq', x, y))
         return ('eq', x, y)
 
     def call(self, e: ast.Call, p: Path, bound):
@@ -1509,10 +1512,32 @@ def recanon_table(t):
     return ('table', tuple(atoms[i] for i in order), tuple(newrows))
 
 
+def _fold_fill(effs):
+    """create-then-fill is create-with-content: `P[k] := []` together with `P[k].extend(V)` (nothing else through
+    P[k]) is `P[k] := V` - V fresh, or copying ignored by this table (freshness is R6's obligation there)."""
+    effs = list(effs)
+    changed = True
+    while changed:
+        changed = False
+        for i, e in enumerate(effs):
+            if isinstance(e, tuple) and e and e[0] == 'setitem' and len(e) == 4 and e[3] == ('list', ()):
+                place = ('item', e[1], e[2])
+                users = [j for j, e2 in enumerate(effs) if j != i and repr(place) in repr(e2)]
+                if len(users) == 1:
+                    e2 = effs[users[0]]
+                    if e2[0] == 'extend' and len(e2) == 3 and e2[1] == place and isinstance(e2[2], tuple) and e2[2] and (
+                            _STRIP[0] or e2[2][0] in ('mcall', 'call', 'filtermap', 'list', 'listcat')):
+                        effs[i] = ('setitem', e[1], e[2], e2[2])
+                        del effs[users[0]]
+                        changed = True
+                        break
+    return effs
+
+
 def _resort_outcome(o):
     if not (isinstance(o, tuple) and o and o[0] == 'out'):
         return o
-    return ('out', tuple(sorted(o[1], key=repr)), _sort_effects(list(o[2])), o[3])
+    return ('out', tuple(sorted(o[1], key=repr)), _sort_effects(_fold_fill(o[2])), o[3])
 
 
 def _news_in(t, acc=None):
@@ -1736,13 +1761,36 @@ def outcome(q: Path, val=None):
             continue
         else:
             effs.append(e)
+    # create-then-fill is create-with-content: `d[k] = []` (or a literal holding `'k': []`) followed, in program
+    # order, by `d[k].extend(V)` / `.append(v)` with nothing else touching d[k] in between
+    changed = True
+    while changed:
+        changed = False
+        for i, e in enumerate(effs):
+            if e[0] == 'setitem' and len(e) == 4 and isinstance(e[3], tuple) and e[3] == ('list', ()):
+                place = ('item', e[1], e[2])
+                for j in range(i + 1, len(effs)):
+                    e2 = effs[j]
+                    if e2[0] == 'extend' and len(e2) == 3 and e2[1] == place:
+                        v = e2[2]
+                        # (the filled list is a copy of V: the same as storing V itself only when V is fresh - or when
+                        # this table ignores copying altogether, freshness being another rule's obligation)
+                        if isinstance(v, tuple) and v and (_STRIP[0] or v[0] in ('mcall', 'call', 'filtermap', 'list', 'listcat')):
+                            effs[i] = ('setitem', e[1], e[2], v)
+                            del effs[j]
+                            changed = True
+                        break
+                    if repr(place) in repr(e2):
+                        break
+                if changed:
+                    break
     sets = tuple(sorted(((loc, v) for loc, v in final.items()
                          if v != ('attr', loc[0], loc[1])), key=repr))
     out = ('out', sets, _sort_effects(effs), canon(q.ret) if q.ret is not None else NONE)
     # fresh objects that stay anonymous (returned, not attached anywhere) are numbered by first appearance
     for _ in range(2):
         out = _renumber_new(out)
-        out = ('out', tuple(sorted(out[1], key=repr)), _sort_effects(out[2]), out[3])
+        out = ('out', tuple(sorted(out[1], key=repr)), _sort_effects(_fold_fill(out[2])), out[3])
     return out
 
 
@@ -1859,11 +1907,18 @@ def _sort_effects(effs):
     return tuple(out)
 
 
+_STRIP = [False]
+
+
 def table_of(fnode, inline=None, strip_copies=False, effectful=None):
     ex = Extractor(fnode, inline, strip_copies=strip_copies)
     ex.eff_inline = dict(effectful or {})
-    paths = ex.run()
-    return canonical_table(paths)
+    _STRIP[0] = bool(strip_copies)
+    try:
+        paths = ex.run()
+        return canonical_table(paths)
+    finally:
+        _STRIP[0] = False
 
 
 def show(t, depth=0) -> str:
@@ -2054,6 +2109,15 @@ def imprecise_kinds(t, acc):
             acc.add(t[0])
         if t[0] in ('setitem', 'append', 'extend', 'delitem') and len(t) > 1 and _fresh_container(_root(t[1])):
             acc.add('local-container-state')
+        if t[0] == 'out' and len(t) > 2 and isinstance(t[2], tuple):
+            # a container created at a place (`d[k] = {'xs': []}`: ('mk', place, kind) markers) and filled through that
+            # place in the same run of effects (`d[k]['xs'].extend(ys)`): create-then-fill and create-with-content
+            # are not brought to one form
+            effs = [e for e in t[2] if isinstance(e, tuple) and e]
+            made = {repr(e[1]) for e in effs if e[0] == 'mk' and len(e) == 3 and not _is_new(e[1])}
+            for e2 in effs:
+                if e2[0] in ('extend', 'append') and len(e2) > 1 and repr(e2[1]) in made:
+                    acc.add('fill-after-create')
         if t[0] in ('const', 'lit'):
             return
     for x in t:
